@@ -157,15 +157,20 @@ IsMajority(rows, y, v) ==
 LeafLabel(nd, classes) ==        \* -1000000 is not a label the harness ever uses
     IF nd.outOk /\ nd.out >= 0 /\ nd.out < Len(classes) THEN classes[nd.out + 1] ELSE -1000000
 
-IsMean(rows, y, yden, nd) ==
+IsMean(rows, y, yden, nd, slack) ==
     /\ nd.outOk
     /\ Len(rows) >= 1
-    /\ Abs(nd.out * Len(rows) * yden - SumY(rows, y) * FxOne) <= Len(rows) * yden
+    /\ Abs(nd.out * Len(rows) * yden - SumY(rows, y) * FxOne) <= Len(rows) * yden + slack
 
-LeafValueOK(kind, nodes, walk, y, yden, classes) ==
+(* Single-precision trees: a child's mean is obtained from (parent sum - sibling sum), the   *)
+(* parent sum itself being output*n rounded to 24 bits; with |numerators| <= 20 the error of  *)
+(* out*m*yden is below 2^-23 * 3 * 20 * n * 2^16 < n/2 units, n the number of training rows.  *)
+MeanSlack(prec, n) == IF prec = "f32" THEN n ELSE 0
+
+LeafValueOK(kind, nodes, walk, y, yden, classes, slack) ==
     \A i \in LeafVisits(nodes, walk) :
         IF kind = "cls" THEN IsMajority(walk[i].rows, y, LeafLabel(nodes[walk[i].k], classes))
-        ELSE IsMean(walk[i].rows, y, yden, nodes[walk[i].k])
+        ELSE IsMean(walk[i].rows, y, yden, nodes[walk[i].k], slack)
 
 (* predict() returns, for every row (training rows and arbitrary query rows), the value   *)
 (* of the leaf the row is routed to by the threshold comparisons.                          *)
@@ -207,12 +212,13 @@ SomeThresholdExists(rows, X, p, msl) ==
 RegOptMaxRows == 64
 RegScore(n, s, nl, sl) == LET d == n * sl - nl * s IN <<d * d, nl * (n - nl)>>
 
-RegNodeInScope(rows, y) ==
+RegNodeInScope(rows, y, prec) ==
     LET n == Len(rows)
         ys == { y[rows[i]] : i \in 1..n }
         lo == CHOOSE a \in ys : \A b \in ys : a <= b
         hi == CHOOSE a \in ys : \A b \in ys : a >= b
-    IN  n <= RegOptMaxRows /\ ((n * n) \div 4) * (hi - lo) <= 46000
+    IN  prec = "f64"        \* in single precision the gains themselves carry errors of the size of the gaps
+        /\ n <= RegOptMaxRows /\ ((n * n) \div 4) * (hi - lo) <= 46000
 
 RegNodeOptimal(rows, X, y, p, msl, left, n, s) ==
     LET nl == Len(left)
@@ -224,16 +230,16 @@ RegNodeOptimal(rows, X, y, p, msl, left, n, s) ==
                   LET sc == RegScore(n, s, Len(cand), SumY(cand, y))
                   IN  RatLE(sc[1], sc[2], obs[1], obs[2])
 
-GreedyOptimalReg(nodes, walk, X, y, p, msl) ==
+GreedyOptimalReg(nodes, walk, X, y, p, msl, prec) ==
     \A i \in InnerVisits(nodes, walk) :
         LET rows == walk[i].rows IN
-        RegNodeInScope(rows, y) =>
+        RegNodeInScope(rows, y, prec) =>
             RegNodeOptimal(rows, X, y, p, msl,
                            SelectSeq(rows, LAMBDA r : GoesTrue(nodes[walk[i].k], X[r])),
                            Len(rows), SumY(rows, y))
 
-RegNodesChecked(nodes, walk, y) ==
-    Cardinality({ i \in InnerVisits(nodes, walk) : RegNodeInScope(walk[i].rows, y) })
+RegNodesChecked(nodes, walk, y, prec) ==
+    Cardinality({ i \in InnerVisits(nodes, walk) : RegNodeInScope(walk[i].rows, y, prec) })
 
 (* ---- classification: the three impurities, exactly -------------------------------- *)
 (* Maximising the gain  I(parent) - nL/n I(L) - nR/n I(R)  is                           *)
@@ -262,7 +268,13 @@ ClsScore(crit, left, right, y, labs) ==
       [] crit = "error" -> ErrScore(left, right, y, labs)
       [] crit = "entropy" -> EntScore(left, right, y, labs)
 
-ClsNodeInScope(crit, rows) == crit # "entropy" \/ Len(rows) <= EntMaxRows
+(* single precision: gini gains of a node of n rows differ by >= 16/n^5 when they differ, f32     *)
+(* rounding contributes a few 2^-24: decided for n <= 12 only; classification-error gains differ   *)
+(* by >= 1/n (any n); entropy as in double precision.                                             *)
+ClsNodeInScope(crit, rows, prec) ==
+    CASE crit = "entropy" -> Len(rows) <= EntMaxRows
+      [] crit = "gini" -> prec = "f64" \/ Len(rows) <= 12
+      [] OTHER -> TRUE
 
 ClsNodeOptimal(crit, rows, X, y, p, msl, left, right, labs) ==
     LET n == Len(rows) IN
@@ -281,16 +293,16 @@ ClsSideConditions(X, p, msl) == msl = 1 /\ DistinctCols(X, p)
 
 IsPure(rows, y) == \A i \in 1..Len(rows) : y[rows[i]] = y[rows[1]]
 
-GreedyOptimalCls(crit, nodes, walk, X, y, p, msl, labs) ==
+GreedyOptimalCls(crit, nodes, walk, X, y, p, msl, labs, prec) ==
     \A i \in InnerVisits(nodes, walk) :
         LET rows == walk[i].rows IN
-        ClsNodeInScope(crit, rows) =>
+        ClsNodeInScope(crit, rows, prec) =>
             ClsNodeOptimal(crit, rows, X, y, p, msl,
                            SelectSeq(rows, LAMBDA r : GoesTrue(nodes[walk[i].k], X[r])),
                            SelectSeq(rows, LAMBDA r : ~GoesTrue(nodes[walk[i].k], X[r])), labs)
 
-ClsNodesChecked(crit, nodes, walk) ==
-    Cardinality({ i \in InnerVisits(nodes, walk) : ClsNodeInScope(crit, walk[i].rows) })
+ClsNodesChecked(crit, nodes, walk, prec) ==
+    Cardinality({ i \in InnerVisits(nodes, walk) : ClsNodeInScope(crit, walk[i].rows, prec) })
 
 PureStaysLeaf(nodes, walk, y) ==
     \A i \in InnerVisits(nodes, walk) : ~IsPure(walk[i].rows, y)
@@ -354,7 +366,9 @@ IsArgSort(v, idx, sorted) ==
 (* 8. The whole per-fit property, as the name of the first clause that     *)
 (* fails ("ok" when none does).  Evaluated left to right so that later     *)
 (* clauses may rely on earlier ones (routing needs a well-formed tree).    *)
-(* e is a record with the fields of a TreeFit event.                       *)
+(* e is a record with the fields of a TreeFit event (prec = "f64" | "f32":  *)
+(* the element type of the tree, which only narrows where optimality is     *)
+(* decided and widens the tolerance of the mean).                           *)
 (***************************************************************************)
 (* Result: [c |-> clause name or "ok", opt |-> internal nodes whose optimality was decided,
              inner |-> internal nodes]                                                    *)
@@ -362,19 +376,19 @@ Res(c, opt, inner) == [c |-> c, opt |-> opt, inner |-> inner]
 
 AfterWalk(e, walk) ==
     LET ni == Cardinality(InnerVisits(e.nodes, walk)) IN
-    IF ~LeafValueOK(e.kind, e.nodes, walk, e.y, e.yden, e.classes) THEN Res("LeafValue", 0, ni)
+    IF ~LeafValueOK(e.kind, e.nodes, walk, e.y, e.yden, e.classes, MeanSlack(e.prec, Len(e.X))) THEN Res("LeafValue", 0, ni)
     ELSE IF ~LeafSizeOK(e.nodes, walk, e.msl) THEN Res("LeafSize", 0, ni)
     ELSE IF ~DepthOK(walk, e.maxDepth) THEN Res("Depth", 0, ni)
     ELSE IF e.kind = "reg" THEN
-        IF ~GreedyOptimalReg(e.nodes, walk, e.X, e.y, e.p, e.msl) THEN Res("GreedyOptimalReg", 0, ni)
+        IF ~GreedyOptimalReg(e.nodes, walk, e.X, e.y, e.p, e.msl, e.prec) THEN Res("GreedyOptimalReg", 0, ni)
         ELSE IF e.maxDepth = 0 /\ ~CompleteReg(e.nodes, walk, e.X, e.p, e.msl, e.mss) THEN Res("CompleteReg", 0, ni)
-        ELSE Res("ok", RegNodesChecked(e.nodes, walk, e.y), ni)
+        ELSE Res("ok", RegNodesChecked(e.nodes, walk, e.y, e.prec), ni)
     ELSE IF ~ClsSideConditions(e.X, e.p, e.msl) THEN Res("ok", 0, ni)
-    ELSE IF ~GreedyOptimalCls(e.crit, e.nodes, walk, e.X, e.y, e.p, e.msl, Labels(e.y)) THEN Res("GreedyOptimalCls", 0, ni)
+    ELSE IF ~GreedyOptimalCls(e.crit, e.nodes, walk, e.X, e.y, e.p, e.msl, Labels(e.y), e.prec) THEN Res("GreedyOptimalCls", 0, ni)
     ELSE IF ~PureStaysLeaf(e.nodes, walk, e.y) THEN Res("PureStaysLeaf", 0, ni)
     ELSE IF e.maxDepth = 0 /\ ~CompleteCls(e.nodes, walk, e.X, e.y, e.p, e.msl, e.mss) THEN Res("CompleteCls", 0, ni)
     ELSE IF SizeLimitsDisabled(e.maxDepth, e.msl, e.mss) /\ ~ReproducesTraining(e.pred, e.y) THEN Res("ReproducesTraining", 0, ni)
-    ELSE Res("ok", ClsNodesChecked(e.crit, e.nodes, walk), ni)
+    ELSE Res("ok", ClsNodesChecked(e.crit, e.nodes, walk, e.prec), ni)
 
 TreeVerdict(e) ==
     IF ~WellFormed(e.nodes, e.p) THEN Res("WellFormed", 0, 0)
